@@ -41,6 +41,90 @@ func selftestMain(args []string) int {
 	if h1 != h2 {
 		return fail("token scheduler trace not reproducible: %x vs %x", h1, h2)
 	}
+	// 2a. the chunked copy-on-write store against a plain map: single and batched writes,
+	// chunk splits and disappearing chunks, point reads, seeks, snapshots
+	{
+		rr := NewRng(12345)
+		for round := 0; round < 60; round++ {
+			universe := pick(rr, []int{45, 700, 3000})
+			model := map[string]string{}
+			var init []KV
+			for j := 0; j < rr.Intn(universe); j++ {
+				k := fmt.Sprintf("k%04d", rr.Intn(universe))
+				init = append(init, KV{k, "i"})
+				model[k] = "i"
+			}
+			a := NewCore(init, false)
+			for step := 0; step < 12; step++ {
+				old := a.snapshot()
+				oldFlat := len(old.flat())
+				m := rr.Intn(pick(rr, []int{3, 25, 900}))
+				var ks, vs [][]byte
+				for j := 0; j < m; j++ {
+					ks = append(ks, []byte(fmt.Sprintf("k%04d", rr.Intn(universe+5))))
+					vs = append(vs, []byte(fmt.Sprintf("v%d.%d", step, j)))
+				}
+				switch rr.Intn(4) {
+				case 0:
+					a.putMany(ks, vs)
+					for j := range ks {
+						model[string(ks[j])] = string(vs[j])
+					}
+				case 1:
+					a.delMany(ks)
+					for j := range ks {
+						delete(model, string(ks[j]))
+					}
+				case 2:
+					for j := range ks {
+						a.put(ks[j], vs[j])
+						model[string(ks[j])] = string(vs[j])
+					}
+				default:
+					for j := range ks {
+						a.del(ks[j])
+						delete(model, string(ks[j]))
+					}
+				}
+				da, corrupt := a.Dump()
+				var want []KV
+				for _, k := range sortedKeys(model) {
+					want = append(want, KV{k, model[k]})
+				}
+				if !kvsEqual(da, want) || corrupt != 0 {
+					return fail("simulated store differs from the map model after step %d: %s", step, diffKVs(da, want))
+				}
+				if a.snapshot().n != len(want) || len(old.flat()) != oldFlat {
+					return fail("simulated store: pair count wrong or an old snapshot changed")
+				}
+				for _, ch := range a.snapshot().chunks {
+					if len(ch) == 0 || len(ch) > maxChunk {
+						return fail("simulated store: chunk of %d pairs", len(ch))
+					}
+				}
+				probe := []byte(fmt.Sprintf("k%04d", rr.Intn(universe+5)))
+				v, ok := a.get(probe)
+				if mv, mok := model[string(probe)]; ok != mok || string(v) != mv {
+					return fail("simulated store: get(%s) = %q,%v; model %q,%v", probe, v, ok, mv, mok)
+				}
+				ci, pi, _ := a.snapshot().find(probe)
+				wantNext := ""
+				for _, kv := range want {
+					if kv.K >= string(probe) {
+						wantNext = kv.K
+						break
+					}
+				}
+				gotNext := ""
+				if ci < len(a.snapshot().chunks) {
+					gotNext = string(a.snapshot().chunks[ci][pi].k)
+				}
+				if gotNext != wantNext {
+					return fail("simulated store: seek(%s) lands on %q, model %q", probe, gotNext, wantNext)
+				}
+			}
+		}
+	}
 	// 2. storage contract
 	c := NewCore([]KV{{"a", "1"}, {"b", ""}, {"c", "3"}}, true)
 	h := NewHandle(c, 0, []Fault{{Call: 9, Kind: FErr}}, false, "t")
@@ -94,4 +178,16 @@ func selftestMain(args []string) int {
 	}
 	fmt.Printf("selftest ok: %d hand-offs x2 exact, trace %x; storage contract ok; concurrent replay identical (race=%v)\n", n*per, h1, raceEnabled)
 	return 0
+}
+
+func dedupKVs(in []KV) []KV {
+	m := map[string]string{}
+	for _, kv := range in {
+		m[kv.K] = kv.V
+	}
+	var out []KV
+	for _, k := range sortedKeys(m) {
+		out = append(out, KV{k, m[k]})
+	}
+	return out
 }
